@@ -28,7 +28,7 @@ type c20Case struct {
 }
 
 var c20Steps = []string{"login-ok", "login-bad", "visit-full", "visit-none", "logout", "recover", "register", "otp-login", "remember", "otp-add", "login-ok",
-	"recover-bad", "confirm-bad", "login-unknown", "get-pages", "register-dup", "recover-unknown", "recover-refused"}
+	"recover-bad", "confirm-bad", "login-unknown", "get-pages", "register-dup", "recover-unknown", "recover-refused", "odd-methods"}
 
 type c20Client struct {
 	w    *harness.World
@@ -179,6 +179,12 @@ func (c *c20Client) run(script []string) {
 		case "recover-refused":
 			// the client's second account lives in a domain whose mail server refuses it: the mailer's error path
 			c.do(name, "POST", P("/recover"), map[string]string{"email": fmt.Sprintf("bounce%d@refuse.x.io", c.i)}, nil)
+		case "odd-methods":
+			// methods the shipped router does not serve, on a path that is this client's own
+			for _, mth := range []string{"HEAD", "OPTIONS", "PUT", "PATCH"} {
+				c.do(name+"."+mth, mth, P(fmt.Sprintf("/login/x%d", c.i)), nil, nil)
+				c.do(name+"."+mth+".login", mth, P("/login"), nil, nil)
+			}
 		case "recover-unknown":
 			c.do(name, "POST", P("/recover"), map[string]string{"email": fmt.Sprintf("ghost%d@x.io", c.i)}, nil)
 		case "get-pages":
